@@ -30,6 +30,8 @@ import (
 	"github.com/failsafe-go/failsafe-go/retrypolicy"
 	"github.com/failsafe-go/failsafe-go/timeout"
 	"google.golang.org/grpc"
+	"google.golang.org/grpc/codes"
+	"google.golang.org/grpc/status"
 	"pgregory.net/rapid"
 
 	"verif/harness"
@@ -48,9 +50,10 @@ const moduleFrame = "github.com/failsafe-go/failsafe-go"
 
 // leftovers returns the goroutines that still have a frame of the module, or of an HTTP client connection, and are not
 // this test's own goroutine.
+var stackBuf = make([]byte, 8<<20) // the scenarios of a process run one after the other
+
 func leftovers() (n int, sample string, total int) {
-	buf := make([]byte, 8<<20)
-	buf = buf[:runtime.Stack(buf, true)]
+	buf := stackBuf[:runtime.Stack(stackBuf, true)]
 	for _, g := range strings.Split(string(buf), "\n\n") {
 		total++
 		if strings.Contains(g, "c19_leaks.leftovers") {
@@ -72,6 +75,7 @@ var currentTransport *http.Transport
 // settle polls until nothing is left or 30 s passed.
 func settle() (n int, sample string, total int) {
 	deadline := harness.Wait(30 * time.Second)
+	pause := 500 * time.Microsecond
 	for {
 		if currentTransport != nil {
 			currentTransport.CloseIdleConnections()
@@ -80,7 +84,10 @@ func settle() (n int, sample string, total int) {
 		if n == 0 || deadline.Expired() {
 			return
 		}
-		time.Sleep(500 * time.Microsecond)
+		time.Sleep(pause)
+		if pause < 20*time.Millisecond {
+			pause += pause / 4 // a leftover that stays is polled less and less often: the dump stops the world
+		}
 	}
 }
 
@@ -536,6 +543,10 @@ type grpcScenario struct {
 	ExecCtx string   `json:"exec_ctx"`
 	Stack   []string `json:"stack"` // timeout hedge-1h retry
 	Reps    int      `json:"reps"`
+	// Fails: how many attempts of each call are answered with an error before one succeeds (99: all of them), and with
+	// which status: "unavailable" is retried by the adapter's retry policy, "internal" ends the call
+	Fails    int    `json:"fails,omitempty"`
+	FailCode string `json:"fail_code,omitempty"`
 }
 
 func runGRPC(sc grpcScenario) (cleanup func()) {
@@ -576,12 +587,28 @@ func runGRPC(sc grpcScenario) (cleanup func()) {
 			callCtx, c = context.WithCancel(callCtx)
 			cancels = append(cancels, c)
 		}
+		attempt := 0
+		answer := func() error {
+			attempt++
+			if attempt > sc.Fails {
+				return nil
+			}
+			if sc.FailCode == "internal" {
+				return status.Error(codes.Internal, "scripted")
+			}
+			return status.Error(codes.Unavailable, "scripted")
+		}
 		if sc.Side == "client" {
 			failsafegrpc.NewUnaryClientInterceptorWithExecutor[any](ex)(callCtx, "/m", 1, new(int), nil, func(ctx context.Context, method string, req, reply any, cc *grpc.ClientConn, opts ...grpc.CallOption) error {
-				return nil
+				return answer()
 			})
 		} else {
-			failsafegrpc.NewUnaryServerInterceptorWithExecutor[any](ex)(callCtx, 1, &grpc.UnaryServerInfo{}, func(ctx context.Context, req any) (any, error) { return 2, nil })
+			failsafegrpc.NewUnaryServerInterceptorWithExecutor[any](ex)(callCtx, 1, &grpc.UnaryServerInfo{}, func(ctx context.Context, req any) (any, error) {
+				if err := answer(); err != nil {
+					return nil, err
+				}
+				return 2, nil
+			})
 		}
 	}
 	return nil // replaced by the deferred assignment above
@@ -604,8 +631,12 @@ func judge(t harness.TB, test string, before int, scenario any, desc string) {
 		harness.Violation(t, prop, test, sig, scenario, "%s: %d goroutines with library / HTTP connection frames still alive 30s after everything returned, e.g.\n%s", desc, n, sample)
 	}
 	// unrelated goroutines (the test server's connection handlers, runtime helpers) may take a moment to go away
+	pause := time.Millisecond
 	for deadline := harness.Wait(30 * time.Second); total > before+3 && !deadline.Expired(); {
-		time.Sleep(time.Millisecond)
+		time.Sleep(pause)
+		if pause < 20*time.Millisecond {
+			pause += pause / 4
+		}
 		_, _, total = leftovers()
 	}
 	if total > before+3 {
@@ -651,6 +682,8 @@ func TestLeaks(t *testing.T) {
 					g.Stack = append(g.Stack, k)
 				}
 			}
+			g.Fails = rapid.SampledFrom([]int{0, 0, 1, 2, 99}).Draw(t, "fails")
+			g.FailCode = rapid.SampledFrom([]string{"unavailable", "unavailable", "internal"}).Draw(t, "failCode")
 			if g.ExecCtx == "custom" && d12Trigger(g.Stack) {
 				g.ExecCtx = "cancellable"
 				st.Count("excluded_known_D12", 1)
